@@ -374,7 +374,13 @@ func (c *censusT) dump(id string) {
 
 func isCensus() bool { return os.Getenv("VERIF_CENSUS") != "" }
 
+func onlySig() string { return os.Getenv("VERIF_ONLY_SIG") }
+
 func genExecCase(t *rapid.T, rec *ev.Recorder, opType ast.Operation) (*ExecCase, *world.Model) {
+	return genExecCaseOpt(t, rec, opType, false)
+}
+
+func genExecCaseOpt(t *rapid.T, rec *ev.Recorder, opType ast.Operation, saturated bool) (*ExecCase, *world.Model) {
 	wopt := world.DefaultOptions()
 	if ev.Thorough() {
 		wopt.MaxServices = 5
@@ -384,7 +390,9 @@ func genExecCase(t *rapid.T, rec *ev.Recorder, opType ast.Operation) (*ExecCase,
 	}
 	m := world.Generate(t, wopt)
 	w := m.Build()
-	w.Store = world.GenerateStore(t, m, world.DefaultStoreOptions())
+	sopt := world.DefaultStoreOptions()
+	sopt.Saturated = saturated
+	w.Store = world.GenerateStore(t, m, sopt)
 	union, err := w.UnionSchema()
 	if err != nil {
 		t.Fatalf("generator bug: %v", err)
